@@ -4,6 +4,7 @@ import (
 	"fmt"
 	"testing"
 
+	"gorgonia.org/tensor"
 	"pgregory.net/rapid"
 )
 
@@ -189,6 +190,41 @@ func (c *C17Case) Run() string {
 			}
 			mc := &C04Copy{DT: d.Name, A: Opnd{Shape: c.Shape, Codes: c.A, L: lay}, Op: "ToMat64"}
 			msg = mc.Run()
+		case "argmasked":
+			// arg-reductions of masked tensors have a kernel per element type as well; what they return is not
+			// modelled here (masked elements do not take part) - the types must agree with each other
+			if !d.IsInt() && !d.IsFloat() {
+				continue
+			}
+			mask := make([]bool, len(c.A))
+			for i := range mask {
+				mask[i] = c.Dst[i]%2 == 1
+			}
+			b, err := Build(Arr{DT: d, Shape: c.Shape, E: decodeAll(d, c.A)}, Layout{Root: "rm"}, mask)
+			if err != nil {
+				continue
+			}
+			ax := c.Axes[0]
+			if ax < 0 {
+				ax = tensor.AllAxes
+			}
+			var r *tensor.Dense
+			var rerr error
+			if p := try(func() {
+				if c.Op == "Argmax" {
+					r, rerr = b.T.Argmax(ax)
+				} else {
+					r, rerr = b.T.Argmin(ax)
+				}
+			}); p != "" {
+				msg = fmt.Sprintf("%s(%d) of a masked tensor %v mask %v panicked: %s", c.Op, c.Axes[0], c.A, mask, p)
+				break
+			}
+			if rerr != nil {
+				continue
+			}
+			rr := arrOf(r)
+			res = &rr
 		case "reducefn":
 			if !d.IsNum() {
 				continue
@@ -356,6 +392,39 @@ func TestC17(t *testing.T) {
 	n := nCases(4, 60)
 	c17FloatCells(t)
 	c17ConsCells(t)
+	for _, op := range []string{"Argmax", "Argmin"} {
+		op := op
+		cell(t, "C17", "C17.xtype", "argmasked/"+op, nCases(40, 1200), func(rt *rapid.T) Case {
+			shape := genShapeMin2(rt, 1, 3, 4, "s")
+			c := &C17Case{Fam: "argmasked", Op: op, Shape: shape, A: genCodes(rt, prod(shape), 0, 6, 0, "a"), Dst: genCodes(rt, prod(shape), 0, 1, 0, "m")}
+			if rapid.Bool().Draw(rt, "all") {
+				c.Axes = []int{-1}
+			} else {
+				c.Axes = []int{rapid.IntRange(0, len(shape)-1).Draw(rt, "axis")}
+			}
+			// every lane keeps at least one element that takes part
+			lanes := map[string][]int{}
+			for k, cc := range coordsOf(shape) {
+				key := ""
+				if c.Axes[0] >= 0 {
+					cp := cloneInts(cc)
+					cp[c.Axes[0]] = 0
+					key = fmt.Sprint(cp)
+				}
+				lanes[key] = append(lanes[key], k)
+			}
+			for _, ks := range lanes {
+				any := false
+				for _, k := range ks {
+					any = any || c.Dst[k]%2 == 0
+				}
+				if !any {
+					c.Dst[ks[0]] = 0
+				}
+			}
+			return c
+		})
+	}
 	for _, op := range arithOps {
 		for _, form := range []string{"TT", "TS", "ST"} {
 			for _, mode := range []string{"safe", "unsafe", "reuse", "incr"} {
